@@ -501,6 +501,46 @@ def audit_body(c):
     return Res(nontrivial=min(sites) <= -700, key=(c["shape"], n, c["model"]["name"], c["dseed"]), labels=("audit",), tags={"model": "oracle"})
 
 
+def float32_cases(tier):
+    """single precision: the same mechanism at much smaller sizes (underflow near 1e-38, detection margin, threshold 1e-20)"""
+    out = []
+    models = [{"name": "JC69"}, {"name": "HKY", "kappa": 3.0, "freqs": [0.1, 0.2, 0.3, 0.4]}]
+    step = 1 if tier == "thorough" else 3
+    for shape in ("caterpillar", "balanced", "random"):
+        for mi, m in enumerate(models):
+            for n in range(8, 90, step):
+                out.append({"shape": shape, "tseed": 5, "dseed": 13 + n, "lseed": 2, "model": m, "site": {"kind": "constant"} if (n + mi) % 3 else {"kind": "weibull", "K": 4, "shape": 0.7},
+                            "nsites": 2, "pdiff": 0.75 if n % 2 else [0.75, 0.3], "palette": [1.0] if n % 4 else [0.4, 1.3], "band": "float32",
+                            "tip": "noamb" if n % 5 else "states", "n": n})
+    return out
+
+
+def float32_body(c):
+    n = c["n"]
+    ref = Ref(c, n)
+    lengths = lengths_for(n, c["palette"], 1.0, c["lseed"])
+    total, sites = ref.loglik(lengths)
+    minsite = float(min(sites))
+    res = Res(nontrivial=minsite <= -40.0, key=("float32", c["shape"], c["model"]["name"], c["site"]["kind"], n, c["tip"]),
+              labels=("float32", c["shape"], c["site"]["kind"], c["tip"], "minsite<%d" % (10 * int(minsite // 10) + 10)),
+              tags={"model": c["model"]["name"], "band": "float32", "shape": c["shape"], "tip": c["tip"]})
+    with tt.default_dtype(torch.float32):
+        dic = build(c, n, ref, lengths, c["tip"])
+        like = dic["like"]
+        vals = [arr(like())]
+        dic["bl"].tensor = dic["bl"].tensor.clone()
+        vals.append(arr(like()))
+    for what, v in zip(("first evaluation", "second evaluation"), vals):
+        v = np.asarray(v, dtype=float).reshape(-1)
+        if v.shape != (1,) or not np.isfinite(v).all():
+            res.fail("nonfinite", dict(what=what, value=v.tolist(), reference=total, n=n, min_site_loglik=minsite))
+            break
+        if abs(v[0] - total) > 2e-5 * max(1.0, abs(total)):
+            res.fail("mismatch", dict(what=what, value=v.tolist(), reference=total, n=n, min_site_loglik=minsite, rel=abs(v[0] - total) / max(1.0, abs(total))))
+            break
+    return res
+
+
 def sweep_cases(tier):
     out = []
     models = [{"name": "JC69"}, {"name": "HKY", "kappa": 3.0, "freqs": [0.1, 0.2, 0.3, 0.4]}, {"name": "GTR", "rates": [1.0, 2.0, 0.5, 1.5, 3.0, 1.0], "freqs": [0.3, 0.2, 0.1, 0.4]}]
@@ -519,6 +559,7 @@ def subchecks(tier):
         Sub("history", history_body, strategy=history_case, quick=16, thorough=400, pretags=pretags),
         Sub("batched_first", batched_first_body, strategy=batched_first_case, quick=24, thorough=600, pretags=pretags),
         Sub("invariant_tail", invariant_tail_body, strategy=invariant_tail_case, quick=16, thorough=400, pretags=lambda c: dict(pretags(c), zero_rate_class=True)),
+        Sub("float32_sweep", float32_body, enumerate=float32_cases, exhaustive=(tier == "thorough"), pretags=pretags),
         Sub("band_sweep", body, enumerate=sweep_cases, exhaustive=(tier == "thorough"), pretags=pretags),
         Sub("audit_oracle", audit_body, strategy=lambda: base_case(bands=["above_normal", "subnormal"]), quick=4, thorough=48),
     ]
